@@ -351,6 +351,17 @@ impl Transport for LocalTransport {
         // for files as small as 10MB when changes are localized (e.g., 1MB change in 100MB).
         const DELTA_THRESHOLD: u64 = 10 * 1024 * 1024; // 10MB
 
+        // Verification hook (add-only, off unless built with --cfg nijaru_sy_verif):
+        // SY_VERIF_DELTA_THRESHOLD=T lets destinations of T bytes or more take the >=10MB paths.
+        #[cfg(nijaru_sy_verif)]
+        let dest_size = match std::env::var("SY_VERIF_DELTA_THRESHOLD")
+            .ok()
+            .and_then(|v| v.parse::<u64>().ok())
+        {
+            Some(t) if dest_size >= t => dest_size.max(DELTA_THRESHOLD),
+            _ => dest_size,
+        };
+
         if dest_size < DELTA_THRESHOLD {
             tracing::debug!(
                 "File size ({:.1} MB) below delta threshold ({} MB), using full copy",
@@ -464,6 +475,12 @@ impl Transport for LocalTransport {
             let has_hardlinks = has_hard_links(&dest);
 
             let use_cow_strategy = supports_cow && same_fs && !has_hardlinks;
+
+            // Verification hook (add-only): SY_VERIF_FORCE_COW selects the clone + selective-write
+            // branch on file systems without reflinks (fs::copy is then an ordinary copy).
+            #[cfg(nijaru_sy_verif)]
+            let use_cow_strategy =
+                use_cow_strategy || std::env::var_os("SY_VERIF_FORCE_COW").is_some();
 
             // Log strategy selection for debugging
             if use_cow_strategy {
